@@ -42,15 +42,6 @@ Definition vstep (s : sect) (o : vop) : sect * list Z :=
       if has_prop n s then (s, [2; err_code EDuplicate])
       else match new_property vals with
            | inl p => (mkS (s_props s ++ [(n, p)]) (s_subs s), [0])
-           | inr EOverflow =>
-               (* the dataset exists already when the conversion of the values fails *)
-               match vals with
-               | v :: _ => match get_dtype v with
-                           | Some t => (mkS (s_props s ++ [(n, mkP t [])]) (s_subs s), [2; err_code EOverflow])
-                           | None => (s, [2; err_code EOverflow])
-                           end
-               | [] => (s, [2; err_code EOverflow])
-               end
            | inr e => (s, [2; err_code e])
            end
   | PCreateTy n t =>
@@ -65,14 +56,6 @@ Definition vstep (s : sect) (o : vop) : sect * list Z :=
               end
   | DSet k vals => match sec_set s k vals with
                    | inl s' => (s', [0])
-                   | inr EOverflow =>
-                       match lookup k (s_props s), vals with
-                       | None, v :: _ => match get_dtype v with
-                                         | Some t => (mkS (s_props s ++ [(k, mkP t [])]) (s_subs s), [2; err_code EOverflow])
-                                         | None => (s, [2; err_code EOverflow])
-                                         end
-                       | _, _ => (s, [2; err_code EOverflow])
-                       end
                    | inr e => (s, [2; err_code e])
                    end
   | DDel k => match sec_del s k with
